@@ -4,7 +4,7 @@
    name or value and fixed tokens otherwise (see Model.v).  "no_nul": the bytes contain no NUL. *)
 From Coq Require Import String.
 From Common Require Import Base.
-From SqlGen Require Import Model Proofs.
+From SqlGen Require Import Model Proofs Sem SemProofs.
 Open Scope list_scope.
 Open Scope N_scope.
 
@@ -89,3 +89,47 @@ Example C14_update_nonvacuous :
   exists o, form_update true false (s2l "u") (s2l "t") [s2l "a"] true old_filters = Ok o /\
     fst o = s2l "UPDATE ""t"" SET ""a""=$1 WHERE (""name"" = 'x''') AND (""city"" = ' OR 1=1 --') AND ""_row_id_"" = $2".
 Proof. eexists. split; vm_compute; reflexivity. Qed.
+
+(* ------------------------------------------------------------------ the meaning of filters (Sem.v) *)
+(* The statement of the property for filters: the rows the generated WHERE clause selects are exactly the rows
+   that satisfy every filter under its documented (three-valued) meaning.  False as it stands: the generator
+   writes HAS(...) lists and NOT operands without parentheses (C14_filter_meaning_refuted). *)
+Definition C14_meaning_statement : Prop :=
+  forall fs r, fs <> [] -> sql_selects r (where_ast fs) = forallb (selects r) fs.
+
+(* where the missing parentheses do not matter (safe_where, computable): same three-valued result ... *)
+Theorem C14_filter_meaning_partial :
+  forall fs r, safe_where fs = true ->
+    truth (eval_sql r (where_ast fs)) = fold_right and3 (Some true) (List.map (eval_filter r) fs).
+Proof. intros fs r H. exact (where_meaning r fs H). Qed.
+
+(* ... hence exactly the documented rows are read, updated or deleted; NULLs included (a comparison with NULL is
+   unknown on both sides, a missing column reads as NULL on both sides) *)
+Theorem C14_filter_rows_partial :
+  forall fs r, safe_where fs = true -> sql_selects r (where_ast fs) = forallb (selects r) fs.
+Proof. intros fs r H. exact (where_selects r fs H). Qed.
+
+(* AND(EQ(a,1), HAS(foo,'x','y')) is written ("a" = 1) AND POSITION('x' IN "foo") > 0 OR POSITION('y' IN "foo") > 0:
+   a row with a = 2 and foo = 'zzy' is selected although the filter does not hold; the expression is the one SQL's
+   grammar gives the generated text (parse_where of its token stream) *)
+Theorem C14_filter_meaning_refuted :
+  selects bad_row bad_filter = false /\ sql_selects bad_row (where_ast [bad_filter]) = true /\
+  parse_where (sql_lex (fst (gen_where [bad_filter]))) = Some (where_ast [bad_filter]).
+Proof. exact meaning_refuted. Qed.
+
+(* the text written for a filter list (any filters, no NUL bytes) lexes to its template *)
+Theorem C14_gen_where_confined :
+  forall fs, Forall filter_ok fs -> sql_lex (fst (gen_where fs)) = snd (gen_where fs).
+Proof. exact gen_where_confined. Qed.
+
+Definition ex_filters : list filter :=
+  [FOr [FCmp CLt (OCol (s2l "age")) (OInt 18); FNot (FCmp CGe (OCol (s2l "name")) (OStr (s2l "M'")));
+        FHas false (s2l "city") [s2l "o"; s2l "x"]];
+   FHas true (s2l "name") [s2l "a"; s2l "r"]; FNot (FIsNull (s2l "city"))].
+Definition ex_row : trow := [(s2l "id", VInt 2); (s2l "name", VText (s2l "Mary")); (s2l "city", VText (s2l "Rome")); (s2l "age", VNull)].
+Example C14_meaning_nonvacuous :
+  safe_where ex_filters = true /\ Forall filter_ok ex_filters /\
+  forallb (selects ex_row) ex_filters = true /\ sql_selects ex_row (where_ast ex_filters) = true /\
+  parse_where (sql_lex (fst (gen_where ex_filters))) = Some (where_ast ex_filters) /\
+  eval_filter ex_row (FCmp CLt (OCol (s2l "age")) (OInt 18)) = None.
+Proof. split; [reflexivity|]. split; [repeat constructor|]. vm_compute. repeat split. Qed.
